@@ -102,14 +102,20 @@ CLAIMED = {
          "overdraws stream or connection window (outflow_take_safe), inflow.take accepts iff within the advertised window "
          "(inflow_take_enforces), inflow.add returns or batches credit with the two panics characterised (inflow_add_returns, "
          "inflow_add_panics_iff), and for UNBOUNDED histories of take/add the un-returned credit stays < 4096 with "
-         "received = returned + unsent (no_leak, by invariant); the send-side discipline (never more DATA than stream window, "
-         "connection window, max frame size; pieces add up; all queued data conserved) is proved for the scheduler model in C20. "
-         "Constants regenerated; flow.go and Consume tied by exact differentials incl. boundary and overflow values"),
-   note=("PARTIAL: the server's and transport's use of these primitives (processData branches, noteBodyRead, closeStream, "
-         "processSettingInitialWindowSize) is exercised by the server-level streams but not yet modelled as a ledger; D14 (double "
-         "connection-level refund after RST_STREAM + late read) is recorded in DESIGN.md. Trusted: Lean kernel + standard axioms; "
-         "translator; harness (package-internal access through overlay)"),
-   technique="Lean 4 arithmetic + invariant proofs (int32 semantics) + function-level differential",
+         "received = returned + unsent (no_leak, by invariant). Client transport: a model of the request-body writer "
+         "(writeRequestBody / awaitFlowControl / window and SETTINGS processing) with the theorem that every run of the writer, "
+         "from any state incl. negative windows, releases no more DATA than the stream AND connection window allow, charges both "
+         "exactly, conserves the queued bytes, keeps every frame within the peer's max frame size (tx_window_safe) and stops with "
+         "bytes in hand only when a window is closed (tx_blocked_only_by_window). Server send side: C20 (Consume). Server receive "
+         "side: an executable model of processData / noteBodyRead / closeStream / sendWindowUpdate (Model/H2Rx) tied to the real "
+         "serverConn by an exact differential of every WINDOW_UPDATE, RST_STREAM and GOAWAY; peer-side ledgers evaluated on the "
+         "implementation's own frames turn a disagreement into a concrete failing input. Constants regenerated"),
+   note=("PARTIAL: the server receive-side ledger is decided by model + differential + the peer-ledger oracle, not yet by a theorem "
+         "over Model/H2Rx; the transport model covers one upload of unknown length per connection. D14 (double connection-level "
+         "refund after RST_STREAM + late read) is reproduced by the model as the code has it (the property's bound is one-sided). "
+         "Trusted: Lean kernel + standard axioms; translator; harness (package-internal access through overlay, upstream's "
+         "deterministic server and client-connection testers)"),
+   technique="Lean 4 arithmetic + invariant proofs (int32 semantics, transport writer) + exact differentials on flow.go, schedulers, the real serverConn and the real client transport",
    design='7/C12'),
  'C13': dict(
    text=("Proof (Lean 4) over a state-machine model of the server's reaction to each client frame (processFrameFromReader, "
